@@ -637,6 +637,93 @@ def judge_tojson(ctx, lines, impls):
             ctx.fail_inputs.append(("transcode", lines[i], impls[i], r, "transcoded bytes are not well-formed per the reference decoder"))
 
 
+# ---- the event-driven encoder models (JV.Model.EncoderEvents) against the real encoders, event for event ------------------------------
+
+def events_of_full(rng, v, lie):
+    """the definite-length, untagged event sequence of a core value; `lie` = [n]: chances left to announce one wrong length"""
+    if v is None:
+        return ["N"]
+    if isinstance(v, bool):
+        return ["T" if v else "F"]
+    if isinstance(v, int):
+        if v >= 2 ** 63 or (v >= 0 and rng.random() < 0.3):
+            return ["U%d" % v]                                  # uint64_value and int64_value write the same bytes
+        return ["I%d" % v]
+    if isinstance(v, bytes):
+        return ["S" + v.hex()]
+    if isinstance(v, tuple) and v[0] == "b":
+        return ["B" + v[1].hex()]
+    if isinstance(v, tuple) and v[0] == "d":
+        return ["D%016x" % v[1]]
+    n = len(v) if isinstance(v, list) else len(v.members)
+    declared = n
+    if lie[0] > 0 and rng.random() < 0.5:
+        declared = max(0, n + rng.choice([-1, 1, 2]))
+        if declared != n:
+            lie[0] -= 1
+            lie.append("lied")
+    if isinstance(v, list):
+        return ["BA%d" % declared] + [t for x in v for t in events_of_full(rng, x, lie)] + ["EA"]
+    if isinstance(v, Obj):
+        return ["BO%d" % declared] + [t for k, x in v.members for t in ["K" + k.hex()] + events_of_full(rng, x, lie)] + ["EO"]
+    raise ValueError(v)
+
+
+def gen_event_model_lines(rng, n):
+    """(line, value the output must denote, lied) - values of the data-model core inside each format's domain (UBJSON / BSON: a share
+    with an integer above 2^63-1, which both sides must refuse), every container announced with its length; for CBOR / MessagePack /
+    UBJSON a share with ONE wrong announcement (both sides must refuse; BSON ignores announcements). BSON roots: documents, arrays
+    (written as the document keyed by the indices), scalars (refused)."""
+    out = []
+    def add(fmt, v, lie_ok=True):
+        lie = [1 if (lie_ok and fmt != "bson" and rng.random() < 0.3) else 0]
+        toks = events_of_full(rng, v, lie)
+        want = v
+        if fmt == "bson" and isinstance(v, list):
+            want = Obj([(b"%d" % i, x) for i, x in enumerate(v)])
+        out.append(("bin events %s %s %s" % (fmt, "p0" if fmt == "cbor" else "-", " ".join(toks)), want, "lied" in lie))
+    for _ in range(n):
+        fmt = rng.choice(FMTS)
+        v = c06.strip_all_tags(c06.gen_value(rng, rng.randint(0, 3), "msgpack" if rng.random() < 0.1 else fmt, []))
+        if fmt == "bson" and not isinstance(v, Obj) and rng.random() < 0.8:
+            v = Obj([(b"v", v)])
+        add(fmt, v)
+    for fmt in FMTS:
+        for i in c06.INT_EDGES:
+            add(fmt, Obj([(b"k", i)]), False)
+            add(fmt, [i, [i]], False)
+        for m in (0, 1, 2, 9, 10, 11, 12, 15, 16, 23, 24, 31, 32, 100, 255, 256):
+            add(fmt, [rng.choice([0, None, True, b"", -1]) for _ in range(m)], False)
+            add(fmt, Obj([(b"a", [None] * m), (b"s", b"x" * m), (b"b", ("b", bytes(range(m)))), (b"k" * max(m, 1), m)]), False)
+        for b in c07.F64[:12] + [0x7ff8000000000001, 0x3ff8000000000000, 0x3ff199999999999a]:
+            add(fmt, Obj([(b"d", ("d", b))]), False)
+        for t in (b"\xc3\xa9", b"\xe2\x82\xac", b"\xf0\x9f\x98\x80", b"a\x00b"):
+            add(fmt, Obj([(b"s", t), (b"n", [t, Obj([(b"\xc3\xa9", t)])])]), False)
+        add(fmt, Obj([]), False)
+        add(fmt, [], False)
+        add(fmt, [[], Obj([]), [[Obj([(b"a", [])])]]], False)
+    return out
+
+
+def event_model_line(line):
+    t = line.split()
+    return "bin mev %s %s" % (t[2], " ".join(t[4:]))
+
+
+def event_model_oracle_factory(meta):
+    base = events_oracle_factory(meta)
+    def oracle(line, impl, model, ref=None):
+        v, lied = meta[line]
+        fmt = line.split()[2]
+        if impl.startswith("err"):
+            if lied or (fmt in ("ubjson", "bson") and uses_u64_big(v)) or (fmt == "bson" and not isinstance(v, Obj)):
+                return None                # a wrong announcement / an integer the format cannot carry / a scalar BSON root: refusing is right
+        elif lied:
+            return "the encoder accepted a container announced with a wrong length: " + impl[:120]
+        return base(line, impl, model, ref)
+    return oracle
+
+
 def nontrivial(line, impl):
     return line if len(line) > 40 else None
 
@@ -655,6 +742,15 @@ def streams(ctx, rng, scale):
     st = ctx.correspond("length-boundaries", HARNESS, bl, events_oracle_factory(bmeta), lambda l, i: l[:200], want_model=False)
     if "_impl" in st:
         st["reference_judged"] = spec_judge_boundaries(ctx, bl, st["_impl"], bmeta)
+    rnge = vlib.rng_for(ctx.seed, "c08/encoder-events-model")
+    em = gen_event_model_lines(rnge, 1500 * scale)
+    emeta = {l: (v, lied) for l, v, lied in em}
+    el = [l for l in dict.fromkeys(l for l, _, _ in em)]
+    st = ctx.correspond("encoder-events-model", HARNESS, el, event_model_oracle_factory(emeta), nontrivial, compare=c06.compare_bytes,
+                        model_lines=[event_model_line(l) for l in el])
+    if "_impl" in st:
+        keep = [(l, o) for l, o in zip(el, st["_impl"]) if not emeta[l][1]]
+        spec_judge_events(ctx, [l for l, _ in keep], [o for _, o in keep], emeta)
     ln = gen_bignum_text_lines(rng, 600 * scale)
     st = ctx.correspond("cbor-bignum-text", HARNESS, ln, bignum_text_oracle, lambda l, i: l, want_model=False)
     if "_impl" in st:
@@ -692,7 +788,9 @@ def run(ctx):
                        "of the length prefixes (15/16, 23/24, 31/32, 127/128, 255/256, 32767/32768, 65535/65536, inside the 16-bit window and above 65536) as "
                        "events and as values into every encoder, judged by the reference decoders; bigdec-tagged strings over the whole decimal-literal grammar "
                        "and bigfloat-tagged hexadecimal literals into the CBOR encoder, the [exponent, mantissa] pair read by the reference decoder and compared "
-                       "as an exact rational with the literal. non-trivial = sequence longer than 40 characters; distinct by line")
+                       "as an exact rational with the literal; definite-length untagged event sequences of core values (right and wrong announcements, "
+                       "integers at every width edge, BSON document / array / scalar roots) pushed into the real encoders and into the Lean event-driven "
+                       "encoder models (JV.Model.EncoderEvents), bytes and refusals compared. non-trivial = sequence longer than 40 characters; distinct by line")
     rng = vlib.rng_for(ctx.seed, "c08")
     streams(ctx, rng, 1 if ctx.tier == "quick" else 10)
 
